@@ -9,15 +9,21 @@ FUNCS = [SH + 'utils.map_match_position', SH + 'utils.correct_mark_macroname',
          SH + 'genxml.output_xml_report',
          SH + 'proofreader.run_proofreader_options',
          SH + 'server.Handler.create_message',
-         SH + 'checks.create_context', SH + 'checks.create_message']
+         SH + 'checks.create_context', SH + 'checks.create_message',
+         # mechanically lifted: the statements that decode the raw answer
+         SH + 'proofreader.run_languagetool.<decode_answer>',
+         SH + 'proofreader.run_textgears.<decode_answer>']
 TRUSTED = [
     'json_get(dic, item, typ) returns a value of type typ or does not return (six lines, assumed); json_fatal / tex2txt.fatal '
     'write one line and exit with status 1',
     'JSON values are modelled as values of unknown type (pyvc/jsonval.py): every subscript, membership test, iteration, '
     'arithmetic, comparison, concatenation and use as index on such a value is an obligation json-safe:* that must follow from '
     'type facts established on the path',
-    'json / subprocess / urllib behaviour (decoding, truncated answers) is outside: invalid JSON is caught by the try/except '
-    'around the decoder in run_languagetool (not verified)',
+    'json / subprocess / urllib: assumed that bytes.decode and JSONDecoder.decode may raise (UnicodeDecodeError, JSONDecodeError, '
+    'RecursionError); the statements of run_languagetool / run_textgears that decode the raw answer are lifted mechanically '
+    '(pyvc/front.py lift_answer_decoding: from the first to the last top-level statement that calls a .decode method) and '
+    'proved to run inside a try block with a catch-all handler that ends in the one-line error; the HTTP / subprocess part '
+    'before it is outside',
 ]
 ASSUMPTIONS = [
     'HTML mode (generate_html) is not under contract yet',
@@ -27,6 +33,6 @@ LEVEL_TEXT = ('Deductive proof of the JSON type discipline in the report generat
     'a value that came from the proofreader goes through json_get or follows from a type fact established before (the typing '
     'loop of run_proofreader_options establishes integer offset and length for every match, the sort key rejects offsets '
     'outside the text with the one-line error); after map_match_position 0 <= offset < len(tex) and offset+length <= len(tex), '
-    'so lines and columns are computed from in-file offsets; all subscripts in these functions are index-safe.')
+    'so lines and columns are computed from in-file offsets; all subscripts in these functions are index-safe; the conversion of the raw answer (bytes -> text -> JSON) happens inside a try block whose handler catches everything and exits with the one-line diagnostic.')
 LEVEL_NOTE = 'Covers text, JSON, XML and server routes; HTML route and the decoding of the raw answer are assumed.'
 TECHNIQUE = 'contract-based deductive verification: type-state obligations on JSON values + run-time-error obligations, z3'
